@@ -74,6 +74,9 @@ func wOpsString(ops []wOp) string {
 // runWriterHistory executes ops against a real bufiox writer and checks everything against
 // the region model. Returns the non-triviality flag.
 func runWriterHistory(cs *drv.Case, ops []wOp, o writerOpts) (nontrivial bool) {
+	if historyGaveUp.Load() {
+		return false
+	}
 	returned, pnc := cs.C.Bounded(historyBound, "writer history", func() {
 		nontrivial = runWriterHistoryInner(cs, ops, o)
 	})
@@ -81,6 +84,7 @@ func runWriterHistory(cs *drv.Case, ops []wOp, o writerOpts) (nontrivial bool) {
 		panic(pnc)
 	}
 	if !returned {
+		historyGaveUp.Store(true)
 		cs.Fail("operation-never-returned", M{"writer": "history"}, M{"ops": fmt.Sprint(ops), "message": fmt.Sprintf("a writer operation of this history had not returned after %v", historyBound)})
 	}
 	return nontrivial
